@@ -14,6 +14,21 @@ def strip_msg(outcome):
     return {k: v for k, v in outcome.items() if k != "msg"}
 
 
+def is_exception(outcome, name):
+    """the outcome is an exception of the named type or of a subclass of it"""
+    return outcome.get("exc") == name or name in (outcome.get("bases") or [])
+
+
+def same_outcome(got, expected):
+    """
+    equality of outcomes where an *expected* exception is given by type name only ({"exc": name}): a subclass
+    satisfies it
+    """
+    if "exc" in expected and "bases" not in expected:
+        return "exc" in got and is_exception(got, expected["exc"])
+    return got == expected
+
+
 def _solo(scenario, rid, op_module, op_name):
     import importlib
 
